@@ -6,9 +6,11 @@ Tie: (1) engine `determ` — the real chain package: every case is produced (rea
 consensus/chain GatherTXs + real executor) in three separate processes with GOMAXPROCS 1/16 and
 validated (real addBlock on fresh nodes) in two more; all outputs must be byte-identical and
 every produced block accepted with identical roots.  (2) translator gen_mapranges -> Gen/MapRanges.v."""
+import hashlib
 import json
 import os
 import re
+import shutil
 import sys
 import time
 
@@ -27,7 +29,9 @@ META = {
             "from the source on every run and must carry a shape with a proved order-independence lemma, a reviewed reading, or be a reported "
             "finding. On every run the real chain code produces and validates blocks (transfers, staking, tied votes, parameter votes, names, "
             "failing transactions) in five separate processes with GOMAXPROCS 1 and 16: block bytes, state roots, receipts roots and receipts "
-            "bytes must be identical and every produced block accepted by a fresh validator.",
+            "bytes must be identical and every produced block accepted by a fresh validator; the governance transactions of those blocks are replayed by "
+            "the Gallina governance model, which must predict every accept / error class and the governance observables of every connected block; "
+            "clause (d) (buckets ordered by account id) is evaluated directly on the real contract/system package.",
     "note": "Partial: goroutine scheduling of the parallel trie update is exercised (GOMAXPROCS 1 vs 16, separate processes) but race freedom "
             "is not proved. The inventory's reachability is an over-approximate static call graph over the listed packages (calls into "
             "pkg/trie, fee, internal/* are not followed; Lua VM behind cgo is an oracle); the table of reviewed sites in Determ/Shapes.v is "
@@ -38,6 +42,28 @@ META = {
 
 E = os.path.join(vf.HARNESS, "engines/determ")
 GOV_KEYS = ("staking_total", "bal_system", "bal_name", "accts", "votes_bp", "votes_dao", "names", "params_state")
+
+
+def tree_key(repo, extra_dirs):
+    """content hash of every .go file of the tree (vendor-free module), go.mod, go.sum and the given directories"""
+    h = hashlib.sha256()
+    files = []
+    for root, dirs, fs in os.walk(repo):
+        dirs[:] = [d for d in dirs if not d.startswith(".") and d not in ("node_modules", "libtool")]
+        for f in fs:
+            if f.endswith(".go") or f in ("go.mod", "go.sum"):
+                files.append(os.path.join(root, f))
+    for d in extra_dirs:
+        for root, _, fs in os.walk(d):
+            files += [os.path.join(root, f) for f in fs]
+    for p in sorted(files):
+        h.update(os.path.relpath(p, repo).encode() + b"\0")
+        try:
+            h.update(open(p, "rb").read())
+        except OSError:
+            pass
+        h.update(b"\0")
+    return h.hexdigest()
 
 
 def run_mode(ctx, binp, mode, lines, tag, procs):
@@ -90,10 +116,24 @@ def run(ctx):
     t0 = time.time()
     # ---------------------------------------------------------------- translated inventory
     gen_out = os.path.join(ctx.workdir, "MapRanges.v")
-    rc, log = vf.sh([os.path.join(ctx.verif, "gen/gen_mapranges/run.sh"), ctx.repo, gen_out],
-                    env=dict(ctx.goenv(), VERIF_GEN_CACHE=os.path.join(vf.BUILD, "gen-cache")), timeout=900)
-    if rc != 0:
-        raise RuntimeError("gen_mapranges failed:\n" + log[-3000:])
+    # The inventory is a function of the Go sources of the tree under test, go.mod/go.sum, the VM stub and
+    # the translator itself: it is recomputed whenever any of them changed (content hash), reused otherwise.
+    key = tree_key(ctx.repo, [os.path.join(ctx.verif, "gen/gen_mapranges"), os.path.join(vf.HARNESS, "overlay")])
+    cached = os.path.join(vf.BUILD, "gen-cache", "mapranges-" + key)
+    if os.path.exists(cached + ".v") and os.path.exists(cached + ".v.json") and not os.environ.get("VERIF_NO_GEN_CACHE") and quick:
+        shutil.copyfile(cached + ".v", gen_out)
+        shutil.copyfile(cached + ".v.json", gen_out + ".json")
+        ctx.cov["inventory_cache"] = "hit " + key[:12]
+    else:
+        rc, log = vf.sh([os.path.join(ctx.verif, "gen/gen_mapranges/run.sh"), ctx.repo, gen_out],
+                        env=dict(ctx.goenv(), VERIF_GEN_CACHE=os.path.join(vf.BUILD, "gen-cache")), timeout=900)
+        if rc != 0:
+            raise RuntimeError("gen_mapranges failed:\n" + log[-3000:])
+        os.makedirs(os.path.dirname(cached), exist_ok=True)
+        shutil.copyfile(gen_out, cached + ".v.tmp")
+        shutil.copyfile(gen_out + ".json", cached + ".v.json")
+        os.rename(cached + ".v.tmp", cached + ".v")
+        ctx.cov["inventory_cache"] = "miss " + key[:12]
     with vf.Lock("coq"):
         os.makedirs(os.path.join(vf.COQ, "Gen"), exist_ok=True)
         vf.write_if_changed(os.path.join(vf.COQ, "Gen", "MapRanges.v"), open(gen_out).read())
